@@ -225,6 +225,23 @@ def _work(chunk):
                         check_sheet(text, shown, objs, fields, V, P)
                         if len(shown) > 1:
                             acc.count('nontrivial')
+        # print again after an edit: the sheet is the one of the edited tasks (widths, indentation, cells)
+        if ext_link is None and vals[0] is None:
+            first = repr(w)
+            objs[-1].name = 'a much longer name than before'
+            objs[0].tag = 'new'
+            if len(par) >= 2 and par[-1] is not None:
+                try:
+                    objs[-1].parent = None
+                except RuntimeError:
+                    pass
+            par2 = [None if t.parent is None else objs.index(t.parent) for t in objs]
+            roots2 = [objs.index(t) for t in w.roots]
+            acc.count('evaluations')
+            acc.count('reprint_after_edit')
+            case = {'parents': list(par), 'names': names, 'edit': 'rename last task, move it to the root level'}
+            check_sheet(repr(w), dfs(par2, roots2, True), objs, None, lambda c_, m_: acc.violation('C20', f'sheet/{c_}/after-edit', m_, case),
+                        lambda n_: None)
         if len(acc.samples) < 1 and len(par) >= 3:
             acc.sample({'parents': list(par), 'names': names, 'sheet': [CELL.sub(lambda m: m.group(2), l) for l in repr(w).split('\n')]})
     return acc
